@@ -33,7 +33,7 @@ COMPONENTS = {
     'real': ['Molecule.allele (likelihood assignment, the DA tag) of one-read molecules tagged with the resolver under test', 'AlleleResolver.__init__ flag handling', 'fetchChromosome', 'write_cache/read_cached', 'getAllelesAt', 'has_location', 'pysam.VariantFile/tabix', 'cache files on a real file system (scratch)'],
     'stub': ['transient EMFILE on the n-th open of a cache file for reading (alleleTools.gzip seam)', 'crash injector for cache-writing lifetimes: forked child, sys.settrace line events inside write_cache with os._exit(137), or RLIMIT_FSIZE'],
 }
-REQUIRED_PROBES = ['sample_name_with_blank', 'molecule_tagged', 'lookup_hit_by_cache_read_fault', 'lifetime_died_while_writing_cache', 'cache_file_read_in_later_lifetime', 'evicted_contig_revisited', 'cache_without_lazy', 'absent_contig_query', 'nonempty_answer', 'config_changed_between_lifetimes']
+REQUIRED_PROBES = ['answer_at_site_with_missing_genotype', 'sample_name_with_blank', 'molecule_tagged', 'lookup_hit_by_cache_read_fault', 'lifetime_died_while_writing_cache', 'cache_file_read_in_later_lifetime', 'evicted_contig_revisited', 'cache_without_lazy', 'absent_contig_query', 'nonempty_answer', 'config_changed_between_lifetimes']
 BASES = 'ACGT'
 
 
@@ -56,8 +56,11 @@ def _gt(w, nalt, phased):
         return '.'
     a = w.randint(0, nalt)
     b = a if w.random() < 0.6 else w.randint(0, nalt)
-    if w.random() < 0.05:
+    y = w.random()
+    if y < 0.05:
         return f'{a}{sep}.'
+    if y < 0.1:
+        return f'.{sep}{b}'
     return f'{a}{sep}{b}'
 
 
@@ -220,6 +223,22 @@ def _model(vcf, cfg, chrom, pos0, base):
     if cfg['ignore'] and any([ref, b] in cfg['ignore'] for b in carried):
         return None
     return sorted(carried.get(base)) if base in carried else None
+
+
+def _containing(vcf, cfg, chrom, pos0, base):
+    """phased mode: the selected samples whose (possibly half-called) genotype at this record contains the single base `base`"""
+    names = {c: i for i, (c, _) in enumerate(vcf['contigs'])}
+    recs = [r for r in vcf['records'] if chrom in names and r[0] == names[chrom] and r[1] - 1 == pos0]
+    if not recs:
+        return None
+    ci, pos, ref, alts, gts = recs[0]
+    alleles = [ref] + list(alts)
+    sel = cfg['select'] or vcf['samples']
+    out = set()
+    for s_, gt in zip(vcf['samples'], gts):
+        if s_ in sel and any(a != '.' and alleles[int(a)] == base for a in gt.replace('|', '/').split('/')):
+            out.add(s_)
+    return sorted(out)
 
 
 def _molecule_allele(ar, ref, vcf, chrom, start, seq):
@@ -416,6 +435,14 @@ def execute(case):
                     if m != 'unknown' and want != m:
                         viol.append({'property': PROPERTY, 'class': 'eager-disagrees-with-vcf-model', 'signature': 'get',
                                      'detail': {'lifetime': li, 'query': [chrom, pos, base, kind], 'eager': want, 'model': m}})
+                    elif m == 'unknown' and cfg['phased'] and isinstance(want, list):
+                        # a selected sample lacks (part of) its genotype: whether the site is kept is not pinned down, but an answer that IS
+                        # given must still be exactly the selected samples whose genotype contains the base
+                        probe('answer_at_site_with_missing_genotype')
+                        c_ = _containing(vcf, cfg, chrom, pos, base)
+                        if c_ is not None and want != c_:
+                            viol.append({'property': PROPERTY, 'class': 'eager-disagrees-with-vcf-model', 'signature': 'get/site-with-missing-genotype',
+                                         'detail': {'lifetime': li, 'query': [chrom, pos, base, kind], 'eager': want, 'samples_whose_genotype_contains_the_base': c_}})
             at_mod.gzip = real_gzip
             cache_after = set(os.listdir(cache_dir)) if os.path.isdir(cache_dir) else set()
             if life['cache'] and life['lazy'] and any(f.split('.')[0].split('_')[0] in visited for f in cache_before):
